@@ -597,6 +597,54 @@ func jsystematic(valid []byte, each func(b []byte, kind string)) {
 				each(c.bytes(), "sys-dup-conflict")
 			}
 		}
+		// member NAME variants: encoding/json matches struct fields case-insensitively, hand-written guards and map lookups do not;
+		// a second member that differs only in case, before and after the original, holding each hostile value
+		if slots[si].parent.kind == 'o' {
+			key := slots[si].parent.keys[slots[si].idx]
+			if key != "" {
+				variants := []string{strings.ToUpper(key[:1]) + key[1:], strings.ToUpper(key), strings.ToLower(key)}
+				for vi, v := range variants {
+					if v == key {
+						continue
+					}
+					{ // renamed
+						c := root.clone()
+						var cs []jslot
+						c.slots(&cs)
+						cs[si].parent.keys[cs[si].idx] = v
+						each(c.bytes(), "sys-key-case")
+					}
+					if vi > 0 {
+						continue
+					}
+					for _, hostile := range []string{"[null]", `[""]`, "null", "5"} {
+						for _, front := range []bool{false, true} { // case-variant twin with a hostile value, after / before the original
+							c := root.clone()
+							var cs []jslot
+							c.slots(&cs)
+							par := cs[si].parent
+							if front {
+								par.keys = append([]string{v}, par.keys...)
+								par.kids = append([]*jnode{jraw(hostile)}, par.kids...)
+							} else {
+								par.keys = append(par.keys, v)
+								par.kids = append(par.kids, jraw(hostile))
+							}
+							each(c.bytes(), "sys-key-case-twin")
+						}
+					}
+					// renamed AND hostile
+					for _, hostile := range []string{"[null]", `[""]`} {
+						c := root.clone()
+						var cs []jslot
+						c.slots(&cs)
+						cs[si].parent.keys[cs[si].idx] = v
+						cs[si].parent.kids[cs[si].idx] = jraw(hostile)
+						each(c.bytes(), "sys-key-case-hostile")
+					}
+				}
+			}
+		}
 	}
 	b := root.bytes()
 	for cut := 1; cut < len(b); cut += 1 + len(b)/40 {
